@@ -1,21 +1,7 @@
 (* Mini/ProofsTyping.v — soundness of the declarative typing judgment (Mini/Typing.v) for the reference
    semantics (Mini/Sem.v): every derivation is accepted by the reference.  Proofs.
 
-   STATEMENT CHANGE.  The pinned statement
-
-     Theorem hasty_sound : forall md GE G e a,
-       HasTy md GE G e a -> exists l, interp md GE G e = Ok l /\ existsb (sty_eqb a) l = true.
-
-   is FALSE as stated: `sty_eqb SErr SErr = false` (SErr, the type of a type mark that did not resolve, is
-   equal to nothing, not even to itself), and rule HT_Call gives a call the declared result type of the
-   callee whatever it is.  In an environment in which a function is bound with result type SErr the call has
-   a derivation of type SErr, the reference computes `Ok [SErr]`, and `existsb (sty_eqb SErr) [SErr] = false`.
-   `hasty_sound_counterexample` below proves the negation of the pinned statement with this instance.
-   (Environments produced by the reference never bind a function with result SErr — `check_decl` resolves the
-   result type mark first — so the defect is one of the statement, not of the judgment or the reference.)
-   The closest true statement is `hasty_sound_partial` (the same with the extra premise `a <> SErr`);
-   `hasty_sound_fits` is the form used at complete contexts.  `rootok_sound` and `stmtsok_sound` are proved
-   exactly as pinned (where a type is expected, `fits t a = true` already excludes `a = SErr`). *)
+   `sty_eqb` is reflexive on every semantic type (also on SErr, the type of a type mark that did not resolve). *)
 From Coq Require Import List NArith Arith Bool Lia.
 Import ListNotations.
 From RH Require Import Mini.Syntax Mini.Sem Mini.Typing.
@@ -519,9 +505,17 @@ End Sound.
 (* the theorems                                                                                 *)
 (* ------------------------------------------------------------------------------------------ *)
 
-(* PINNED (FALSE as stated, see the header and `hasty_sound_counterexample`):
-   Theorem hasty_sound : forall md GE G e a,
-     HasTy md GE G e a -> exists l, interp md GE G e = Ok l /\ existsb (sty_eqb a) l = true. *)
+Lemma sty_eqb_refl_all (a : sty) : sty_eqb a a = true.
+Proof. destruct a; cbn [sty_eqb]; try reflexivity; rewrite !N.eqb_refl; reflexivity. Qed.
+
+(* an expression with a derivation of type a has an interpretation of type a *)
+Theorem hasty_sound : forall md GE G e a,
+  HasTy md GE G e a -> exists l, interp md GE G e = Ok l /\ existsb (sty_eqb a) l = true.
+Proof.
+  intros md GE G e a Hty.
+  destruct (proj1 (typing_sound_all md GE G) e a Hty) as (l & Hl & Hex).
+  exists l. split; [exact Hl|]. apply Hex. exact (sty_eqb_refl_all a).
+Qed.
 
 (* an expression with a derivation of type a (other than the error type) has an interpretation of type a *)
 Theorem hasty_sound_partial : forall md GE G e a,
@@ -549,40 +543,6 @@ Theorem hasty_interp_ok : forall md GE G e a, HasTy md GE G e a -> exists l, int
 Proof.
   intros md GE G e a Hty.
   destruct (proj1 (typing_sound_all md GE G) e a Hty) as (l & Hl & _). exists l. exact Hl.
-Qed.
-
-(* the pinned statement of hasty_sound does not hold *)
-Module Counterexample.
-  Definition f_sig : list psig := [PSig 9 KConst MIn SBool].
-  Definition f_bnd : binding := Bnd (BFun f_sig SErr) None.
-  Definition G0 : env := set_vis (env0 0) (fadd 8 f_bnd (e_vis (env0 0))).
-  Definition e0 : expr := ECall (FId (Occ 0 8)) (ACons ChPos (ENam (NId (Occ 1 id_true))) ANil).
-
-  Lemma e0_HasTy : HasTy Exactly [] G0 e0 SErr.
-  Proof.
-    unfold e0. apply (HT_Call Exactly [] G0 (FId (Occ 0 8)) _ [f_bnd] f_sig SErr).
-    - reflexivity.
-    - left. reflexivity.
-    - cbn [f_sig map ps_name ps_ty].
-      apply (AO_Pos Exactly [] G0 9 [] SBool [] _ SBool ANil).
-      + apply (HT_Nam Exactly [] G0 _ [SBool] SBool); reflexivity.
-      + reflexivity.
-      + apply AO_Nil.
-  Qed.
-
-  Lemma e0_interp : interp Exactly [] G0 e0 = Ok [SErr].
-  Proof. reflexivity. Qed.
-End Counterexample.
-
-Theorem hasty_sound_counterexample :
-  ~ (forall md GE G e a,
-       HasTy md GE G e a -> exists l, interp md GE G e = Ok l /\ existsb (sty_eqb a) l = true).
-Proof.
-  intros Hall.
-  destruct (Hall Exactly [] Counterexample.G0 Counterexample.e0 SErr Counterexample.e0_HasTy)
-    as (l & Hl & Hex).
-  rewrite Counterexample.e0_interp in Hl. injection Hl as Hl. subst l.
-  cbn in Hex. discriminate Hex.
 Qed.
 
 (* a derivable complete context is accepted *)
